@@ -284,7 +284,7 @@ def run_shard(spec, acc):
             sim, stats = run_one(kind, stream, cuts, idle, settings, cb)
             inside = any(c not in bset for c in cuts)
             judge(sim, stats, want, acc, kind, label, cuts, settings, cb, stream, undel, inside)
-        if rep % 2 == 0:
+        if True:
             # the link drops at a packet boundary in the middle of the stream (possibly inside a fast-packet message);
             # the rest arrives on the next connection: same decoder, same expected deliveries
             bl = sorted(bset)
